@@ -7,7 +7,7 @@ Extraction "../ocaml/gen/C19_model.ml"
   Split.npos Split.split_char Split.split_str Split.split_char_min Split.split_str_min Split.join Split.join_char Split.cleanb
   Split.join_quoted Split.split_quoted
   Split.replace_first Split.replace_first_char Split.replace_all Split.replace_all_char
-  Helpers.to_lower Helpers.to_upper Helpers.compare_icase Helpers.strcmp_sign
+  Helpers.to_lower Helpers.to_upper Helpers.compare_icase Helpers.strcmp_sign Helpers.equal_icase Helpers.less_icase
   Helpers.starts_with Helpers.starts_with_icase Helpers.ends_with Helpers.ends_with_icase Helpers.contains Helpers.contains_char
   Helpers.trim_inplace Helpers.trim_copy Helpers.trim_left Helpers.trim_right Helpers.trim_spec Helpers.trim_left_spec Helpers.trim_right_spec
   Helpers.erase_all Helpers.erase_all_inplace Helpers.pad Helpers.levenshtein Helpers.levenshtein_icase Helpers.lev_spec Helpers.icase_eq.
